@@ -12,6 +12,7 @@ structure RunRec where
   refB : Option Nat := none
   implOut : Option MPoly := none        -- the implementation's result (when it answered OK ... MP ...)
   implRaw : String := ""
+  modelAns : String := ""               -- the model's answer to a BOOL / SUBDIV request (for the range probe)
 deriving Inhabited
 
 structure CaseSt where
